@@ -518,6 +518,9 @@ pub fn run(ctx: &Ctx) -> Report {
         for (s, o) in &log {
             r.reach("stage_outcomes", &format!("{}:{}", s.split('[').next().unwrap_or(s), o.split(' ').next().unwrap_or(o)));
         }
+        if r.samples.len() < 3 && log.len() >= 8 && wname != "standard" {
+            r.sample(json!({"case": case.sql, "kind": case.kind, "world": wname, "stages": log.iter().map(|(s, o)| format!("{s}:{}", o.split(' ').next().unwrap_or(o))).collect::<Vec<_>>()}));
+        }
         judge(case, &wname, &log, &mut r);
     }
     if (results.len() as u64) < (all.len() * worlds_n) as u64 {
@@ -528,7 +531,6 @@ pub fn run(ctx: &Ctx) -> Report {
     probe_semantics(ctx, &mut r);
     r.set("cases", all.len() as u64);
     r.set("worlds", worlds_n as u64);
-    r.sample(json!({"case": "SELECT age / id AS z, age % id AS m FROM users", "world": "zero-containing", "stages": ["parse", "relation", "schema", "render", "pup-hard", "pup-soft", "dp[eps1-delta1e-3]", "dp[zero-budget]", "dp[zero-delta]"]}));
     r.rule = "cases = E-sql queries + name-clash queries + one probe per construct the fragment does not claim (unknown function, comma join, window, sub-query in an expression, GROUP BY ALL/ROLLUP, qualified wildcard, nested set operations, exotic operators, table functions, semi/anti joins, DISTINCT ON, TOP, FILTER, WITHIN GROUP, duplicate output names, division by a zero-containing range, ...) x schema variants (standard, unbounded, zero-containing, i64/f64 extremes; thorough: zero-width, 129-interval sets, empty value sets, all nullable) x stages parse -> relation -> schema -> render -> PUP (hard, soft) -> DP (several DpParameters incl. zero budgets); every (case, schema) runs in a supervised child process. oracle: every stage ends Ok or Err; Panic / abort / timeout is a violation; an accepted unsupported construct must still read every table it names and agree with SQLite. non-trivial = distinct cases".into();
     r.assumptions = vec!["per-case wall clock of 20 s (quick) / 40 s (thorough) stands for 'loops'".into()];
     r
